@@ -58,6 +58,7 @@ type Contract struct {
 	Extern     bool
 	Lemma      bool
 	NoFrame    bool
+	NoWrap     bool
 	Uses       []ast.Expr
 	Line       string
 }
@@ -307,6 +308,8 @@ func (c *Ctx) parseContracts(p *packages.Package) error {
 						cur.Arith = true
 					case "abstract":
 						cur.Abstract = true
+					case "nowrap":
+						cur.NoWrap = true
 					case "noframe":
 						cur.NoFrame = true
 					case "|":
